@@ -257,6 +257,10 @@ def _body(H, case, view, R):
         raised = e
     except KeyboardInterrupt as e:
         raised = e
+    except (engine.HarnessError, engine.ConcreteReject):
+        raise
+    except Exception as e:  # an error raised by the code under test itself is an error stop too
+        raised = e
     finally:
         R.DataHandler.save_time_step = real_save
         builtins.input = real_input
@@ -280,6 +284,11 @@ def _body(H, case, view, R):
     # ---- what the run reports -----------------------------------------------------------------------
     fired = st["fired"]
     interrupted = fired and kind == "interrupt" and not (pause and answer == "y")
+    resumed = fired and kind == "interrupt" and pause and answer == "y"
+    foreign = raised is not None and not isinstance(raised, (Injected, KeyboardInterrupt))
+    # (after "continue" at the pause prompt the property says nothing about how the run goes on; an
+    # error it then dies of is an error stop like any other and the claims on the files apply to it)
+    H.prove(f"[{tag}] no error other than the injected one stops the run, unless the user resumed an interrupted run", (not foreign) or resumed)
     if fired and kind == "exception":
         H.prove(f"[{tag}] an error in the update / frame writer propagates to the caller", raised is not None and isinstance(raised, Injected))
     elif fired and kind == "interrupt" and site == "update":
